@@ -353,4 +353,94 @@ theorem zeroSbs_spec (l r rows : Nat) (h1 : l + 1 ≤ usizeMax) (h2 : r + 1 ≤ 
       emitArms, hl, hr', h1, h2, hr]
   · simp [hs, SbsRow.shown, Cell.left, Cell.right]
 
+/-! ### a whole hunk in side-by-side mode -/
+
+def Block.old : Block → Nat
+  | .zero _ => 1
+  | .sub m _ _ _ _ => m
+
+def Block.new : Block → Nat
+  | .zero _ => 1
+  | .sub _ p _ _ _ => p
+
+/-- Well-formed block: the alignment uses every line once and in order; one row count ≥ 1 per line. -/
+def Block.wf : Block → Prop
+  | .zero _ => True
+  | .sub m p al wl wr => validFrom al 0 0 = some (m, p) ∧ wl.length = m ∧ wr.length = p ∧
+      (∀ x ∈ wl, 1 ≤ x) ∧ (∀ y ∈ wr, 1 ≤ y)
+
+def blockSpec (a c : Nat) : Block → List (Option Nat × Option Nat)
+  | .zero rows => (some a, some c) :: List.replicate (rows - 1) (none, none)
+  | .sub _ _ al wl wr => sbsSpec a c al wl wr
+
+def totalOld : List Block → Nat
+  | [] => 0
+  | b :: bs => b.old + totalOld bs
+
+def totalNew : List Block → Nat
+  | [] => 0
+  | b :: bs => b.new + totalNew bs
+
+/-- Specification of a hunk: the blocks in order, each starting where the previous one ended. -/
+def hunkSpec : Nat → Nat → List Block → List (Option Nat × Option Nat)
+  | _, _, [] => []
+  | a, c, b :: bs => blockSpec a c b ++ hunkSpec (a + b.old) (c + b.new) bs
+
+theorem validFrom_zero (al : Alignment) (h : validFrom al 0 0 = some (0, 0)) : al = [] := by
+  cases al with
+  | nil => rfl
+  | cons e rest =>
+    obtain ⟨mi, pi⟩ := e
+    cases mi <;> cases pi <;> simp only [validFrom] at h
+    · simp at h
+    · split at h
+      · have := validFrom_le _ _ _ _ _ h; omega
+      · simp at h
+    · split at h
+      · have := validFrom_le _ _ _ _ _ h; omega
+      · simp at h
+    · split at h
+      · have := validFrom_le _ _ _ _ _ h; omega
+      · simp at h
+
+theorem runBlocksSbs_spec : ∀ (bs : List Block) (a c : Nat), (∀ b ∈ bs, b.wf) →
+    a + totalOld bs + 1 ≤ usizeMax → c + totalNew bs + 1 ≤ usizeMax →
+    ∃ rows, runBlocksSbs ⟨a, c⟩ bs = .ok (⟨a + totalOld bs, c + totalNew bs⟩, rows) ∧
+      rows.map SbsRow.shown = (hunkSpec a c bs).map some := by
+  intro bs
+  induction bs with
+  | nil => intro a c _ _ _; exact ⟨[], rfl, rfl⟩
+  | cons b bs ih =>
+    intro a c hwf ha hc
+    have hb := hwf b (List.mem_cons_self)
+    have hrest : ∀ b' ∈ bs, b'.wf := fun b' hb' => hwf b' (List.mem_cons_of_mem _ hb')
+    simp only [totalOld, totalNew] at ha hc
+    obtain ⟨rows2, hr2, hs2⟩ := ih (a + b.old) (c + b.new) hrest (by omega) (by omega)
+    cases b with
+    | zero rows =>
+      obtain ⟨rows1, hr1, hs1⟩ := zeroSbs_spec a c rows (by simp [Block.old] at ha; omega) (by simp [Block.new] at hc; omega)
+      refine ⟨rows1 ++ rows2, ?_, ?_⟩
+      · simp only [runBlocksSbs, hr1]
+        simp only [Block.old, Block.new] at hr2
+        simp [hr2, totalOld, totalNew, Block.old, Block.new, Nat.add_assoc]
+      · simp [hs1, hs2, hunkSpec, blockSpec, Block.old, Block.new]
+    | sub m p al wl wr =>
+      obtain ⟨hv, hwl, hwr, hpl, hpr⟩ := hb
+      by_cases h0 : m = 0 ∧ p = 0
+      · obtain ⟨rfl, rfl⟩ := h0
+        have hal := validFrom_zero al hv
+        subst hal
+        refine ⟨rows2, ?_, ?_⟩
+        · simp only [runBlocksSbs]
+          simp only [Block.old, Block.new, Nat.add_zero] at hr2
+          simp [hr2, totalOld, totalNew, Block.old, Block.new]
+        · simp [hs2, hunkSpec, blockSpec, sbsSpec, Block.old, Block.new]
+      · obtain ⟨rows1, hr1, hs1⟩ := sbsBlock_spec a c m p al wl wr hv hwl hwr hpl hpr
+          (by simp [Block.old] at ha; omega) (by simp [Block.new] at hc; omega)
+        refine ⟨rows1 ++ rows2, ?_, ?_⟩
+        · simp only [runBlocksSbs, h0, if_false, hr1]
+          simp only [Block.old, Block.new] at hr2
+          simp [hr2, totalOld, totalNew, Block.old, Block.new, Nat.add_assoc]
+        · simp [hs1, hs2, hunkSpec, blockSpec, Block.old, Block.new]
+
 end LineNumbers
